@@ -1,4 +1,4 @@
-(* C33 — proofs: the sequential rewrite has a closed form on duplicate-free lists of base names, and that
+(* C33 — proofs: the rewrite has a closed form on every list of base names (repetitions included), and that
    closed form is GNU ld's renaming when every wrapper exists. *)
 From Coq Require Import NArith List Bool Lia.
 From WV Require Import C33.Model.
@@ -34,53 +34,46 @@ Definition cf (t : table) (ws : list name) (n : name) : option N :=
   | Wrap _ => t n
   end.
 
-Lemma wild_step_ext t1 t2 s : (forall n, t1 n = t2 n) -> forall n, wild_step t1 s n = wild_step t2 s n.
+Lemma wild_step_ext t0 t1 t2 s : (forall n, t1 n = t2 n) -> forall n, wild_step t0 t1 s n = wild_step t0 t2 s n.
 Proof.
-  intros H n. unfold wild_step. rewrite (H s), (H (Wrap s)).
-  destruct (t2 (Wrap s)) as [w|]; destruct (t2 s) as [o|]; unfold upd; rewrite ?H; reflexivity.
-Qed.
-
-Lemma fold_ext ws : forall t1 t2, (forall n, t1 n = t2 n) -> forall n, fold_left wild_step ws t1 n = fold_left wild_step ws t2 n.
-Proof.
-  induction ws as [|s r IH]; intros t1 t2 H n; cbn [fold_left]; [apply H|].
-  apply IH. apply wild_step_ext. exact H.
+  intros H n. unfold wild_step.
+  destruct (t0 (Wrap s)) as [w|]; destruct (t0 s) as [o|]; unfold upd; rewrite ?H; reflexivity.
 Qed.
 
 Theorem wild_table_closed_form t ws :
-  NoDup ws -> Forall (fun s => is_base s = true) ws -> forall n, wild_table t ws n = cf t ws n.
+  Forall (fun s => is_base s = true) ws -> forall n, wild_table t ws n = cf t ws n.
 Proof.
-  induction ws as [|s ws' IH] using rev_ind; intros Hnd Hb n; [destruct n; reflexivity|].
-  apply NoDup_remove in Hnd. rewrite app_nil_r in Hnd. destruct Hnd as [Hnd Hnin].
+  induction ws as [|s ws' IH] using rev_ind; intros Hb n; [destruct n; reflexivity|].
   apply Forall_app in Hb. destruct Hb as [Hb Hs]. inversion Hs as [|? ? Hsb _]; subst.
   unfold wild_table. rewrite fold_left_app. cbn [fold_left].
-  rewrite (wild_step_ext _ (cf t ws') s (IH Hnd Hb)).
+  rewrite (wild_step_ext t _ (cf t ws') s (IH Hb)).
   destruct s as [b|x|x]; try discriminate. clear Hsb.
-  assert (Hw : wrapped ws' (Base b) = false).
-  { destruct (wrapped ws' (Base b)) eqn:E; [apply wrapped_in in E; contradiction|reflexivity]. }
-  unfold wild_step. cbn [cf]. rewrite Hw.
+  unfold wild_step.
   destruct n as [c|y|y]; cbn [cf]; rewrite ?wrapped_app.
   - (* n = Base c *)
     destruct (name_eqb (Base c) (Base b)) eqn:E.
     + apply name_eqb_eq in E. injection E as ->. rewrite orb_true_r.
-      destruct (t (Wrap (Base b))) as [w|] eqn:Ew; destruct (t (Base b)) as [o|] eqn:Et; unfold upd; cbn [name_eqb]; rewrite ?N.eqb_refl; cbn [cf]; rewrite ?Hw, ?Ew, ?Et; reflexivity.
+      destruct (t (Wrap (Base b))) as [w|] eqn:Ew; destruct (t (Base b)) as [o|] eqn:Et; unfold upd; cbn [name_eqb]; rewrite ?N.eqb_refl; cbn [cf];
+        rewrite ?Ew, ?Et; try reflexivity; destruct (wrapped ws' (Base b)); reflexivity.
     + rewrite orb_false_r.
-      destruct (t (Wrap (Base b))) as [w|] eqn:Ew; destruct (t (Base b)) as [o|] eqn:Et; unfold upd; cbn [name_eqb] in *; rewrite ?E; cbn [cf]; rewrite ?Ew, ?Et; reflexivity.
+      destruct (t (Wrap (Base b))) as [w|] eqn:Ew; destruct (t (Base b)) as [o|] eqn:Et; unfold upd; cbn [name_eqb] in *; rewrite ?E; cbn [cf]; reflexivity.
   - (* n = Wrap y *)
-    destruct (t (Wrap (Base b))) as [w|] eqn:Ew; destruct (t (Base b)) as [o|] eqn:Et; unfold upd; cbn [name_eqb cf]; rewrite ?Ew, ?Et; reflexivity.
+    destruct (t (Wrap (Base b))) as [w|] eqn:Ew; destruct (t (Base b)) as [o|] eqn:Et; unfold upd; cbn [name_eqb cf]; reflexivity.
   - (* n = Real y *)
     destruct (name_eqb y (Base b)) eqn:E.
     + apply name_eqb_eq in E. subst y. rewrite orb_true_r.
-      destruct (t (Wrap (Base b))) as [w|] eqn:Ew; destruct (t (Base b)) as [o|] eqn:Et; unfold upd; cbn [name_eqb]; rewrite ?N.eqb_refl; cbn [cf]; rewrite ?Hw, ?Ew, ?Et; reflexivity.
+      destruct (t (Wrap (Base b))) as [w|] eqn:Ew; destruct (t (Base b)) as [o|] eqn:Et; unfold upd; cbn [name_eqb]; rewrite ?N.eqb_refl; cbn [cf];
+        rewrite ?Ew, ?Et; try reflexivity; destruct (wrapped ws' (Base b)); reflexivity.
     + rewrite orb_false_r.
-      destruct (t (Wrap (Base b))) as [w|] eqn:Ew; destruct (t (Base b)) as [o|] eqn:Et; unfold upd; cbn [name_eqb]; rewrite ?E; cbn [cf]; rewrite ?Ew, ?Et; reflexivity.
+      destruct (t (Wrap (Base b))) as [w|] eqn:Ew; destruct (t (Base b)) as [o|] eqn:Et; unfold upd; cbn [name_eqb]; rewrite ?E; cbn [cf]; reflexivity.
 Qed.
 
 Theorem wild_eq_gnu t ws :
-  NoDup ws -> Forall (fun s => is_base s = true) ws ->
+  Forall (fun s => is_base s = true) ws ->
   (forall s, In s ws -> t (Wrap s) <> None /\ (t s = None -> t (Real s) = None)) ->
   forall n, wild_resolve t ws n = gnu_resolve t ws n.
 Proof.
-  intros Hnd Hb Hw n. unfold wild_resolve. rewrite (wild_table_closed_form t ws Hnd Hb).
+  intros Hb Hw n. unfold wild_resolve. rewrite (wild_table_closed_form t ws Hb).
   assert (Hnb : forall m, is_base m = false -> wrapped ws m = false).
   { intros m Hm. destruct (wrapped ws m) eqn:E; [|reflexivity]. apply wrapped_in in E.
     rewrite Forall_forall in Hb. rewrite (Hb m E) in Hm. discriminate. }
